@@ -906,43 +906,56 @@ class PrefixedArrayAnyLength(Unit):
             def __init__(self, n):
                 self.n = n
         self.AbsResult = AbsResult
-        fsend = raw(PrefixedArray, '_PrefixedArray__send')
-        fread = raw(PrefixedArray, '_PrefixedArray__read')
-        ks = loop_keys(fsend, T_ + 'PrefixedArray.__send', kind=ast.For)
-        kr = loop_keys(fread, T_ + 'PrefixedArray.__read', kind=ast.ListComp)
-        kr_for = loop_keys(fread, T_ + 'PrefixedArray.__read', kind=ast.For)
-        if len(ks) == 1 and not kr and len(kr_for) == 1:
-            # the same reader written as an explicit loop appending to an accumulator list
-            class AbsList(AbsResult):
-                def append(self_, v):
-                    I.E.check('array.element-value', v == ('read', self_.n) if not isinstance(v, tuple)
-                              else And(v[0] == 'read', v[1] == self_.n),
-                              note='element j of the result is what the j-th element read returned')
-                    self_.n = self_.n + 1
-
-            def acc_name(fr):
-                names = [k for k, v in fr.locals.items() if isinstance(v, (list, AbsResult))]
-                if len(names) != 1:
-                    raise Unsupported('array read loop: expected exactly one accumulator list, found %r' % (names,))
-                return names[0]
-
-            def r_inv(I_, fr, j):
-                acc = fr.locals[acc_name(fr)]
-                return And(unit.count == j, unit.length_read == 1, (len(acc) if isinstance(acc, list) else acc.n) == j)
-
-            def r_havoc(I_, fr, j):
-                unit.count = j
-                fr.locals[acc_name(fr)] = AbsList(j)
-            I.loop_specs[kr_for[0]] = ForSpec('elements', lambda I_, it: it.n, lambda I_, it, j: j, r_inv, r_havoc)
-            kr = None
-        elif len(ks) != 1 or len(kr) != 1:
-            raise Unsupported('contract does not fit the code any more: PrefixedArray.__send/__read no longer have one loop / one comprehension')
-        I.loop_specs[ks[0]] = ForSpec('elements', lambda I_, it: it.n, lambda I_, it, j: ('elem', j),
-                                      lambda I_, fr, j: And(unit.count == j, unit.length_sent == 1),
-                                      lambda I_, fr, j: setattr(unit, 'count', j))
+        from .common import reachable_loops, ByIterable
         from pyvc.builtins_model import SymRange
-        if kr:
-            I.loop_specs[kr[0]] = CompSpec('elements', lambda I_, it: it.n, lambda I_, it, j: j,
+        pub = [raw(PrefixedArray, m) for m in ('send', 'read', 'send_with_context', 'read_with_context')]
+        kfor, kr = set(), set()
+        for f in pub:
+            kfor |= set(reachable_loops(f, PrefixedArray, kind=ast.For, depth=1))
+            kr |= set(reachable_loops(f, PrefixedArray, kind=ast.ListComp, depth=1))
+        kr = sorted(kr)
+        if not kfor:
+            raise Unsupported('contract does not fit the code any more: no element loop reachable from PrefixedArray.send / read')
+
+        # the reader written as an explicit loop appending to an accumulator list
+        class AbsList(AbsResult):
+            def append(self_, v):
+                I.E.check('array.element-value', v == ('read', self_.n) if not isinstance(v, tuple)
+                          else And(v[0] == 'read', v[1] == self_.n),
+                          note='element j of the result is what the j-th element read returned')
+                self_.n = self_.n + 1
+
+        def acc_name(fr):
+            names = [k for k, v in fr.locals.items() if isinstance(v, (list, AbsResult))]
+            if len(names) != 1:
+                raise Unsupported('array read loop: expected exactly one accumulator list, found %r' % (names,))
+            return names[0]
+
+        def r_inv(I_, fr, j):
+            acc = fr.locals[acc_name(fr)]
+            return And(unit.count == j, unit.length_read == 1, (len(acc) if isinstance(acc, list) else acc.n) == j)
+
+        def r_havoc(I_, fr, j):
+            unit.count = j
+            fr.locals[acc_name(fr)] = AbsList(j)
+        read_for = ForSpec('elements', lambda I_, it: it.n, lambda I_, it, j: j, r_inv, r_havoc)
+        send_for = ForSpec('elements', lambda I_, it: it.n, lambda I_, it, j: ('elem', j),
+                           lambda I_, fr, j: And(unit.count == j, unit.length_sent == 1),
+                           lambda I_, fr, j: setattr(unit, 'count', j))
+
+        class BySide(object):
+            # the loop over the value being sent gets the writer contract, a loop over range(count) the reader contract
+            def run(self_, I_, node, frame):
+                it = I_.eval(node.iter, frame)
+                if isinstance(it, AbsValue):
+                    return send_for.run(I_, node, frame)
+                if isinstance(it, SymRange):
+                    return read_for.run(I_, node, frame)
+                return I_.for_plain(node, frame)
+        for k in kfor:
+            I.loop_specs[k] = BySide()
+        for _k in kr:
+            I.loop_specs[_k] = CompSpec('elements', lambda I_, it: it.n, lambda I_, it, j: j,
                                        lambda I_, fr, j: And(unit.count == j, unit.length_read == 1),
                                        lambda I_, fr, j: setattr(unit, 'count', j),
                                        lambda I_, j, v: I_.E.check('array.element-value', v == ('read', j) if not isinstance(v, tuple)
